@@ -228,29 +228,70 @@ def c13_alphabet(alpha):
     return [t for t in alpha if t[0] in C13_CODES]
 
 
-def gen_sequences(ctx):
-    """yields (tr, curve, templates, family)"""
-    full, core, micro = c13_alphabet(ic.full_alphabet()), ic.core_alphabet(), ic.micro_alphabet()
+ALPHABETS = {"full": lambda: c13_alphabet(ic.full_alphabet()), "core": ic.core_alphabet, "micro": ic.micro_alphabet}
+
+
+def families(ctx):
+    """(family name, alphabet, length, tr, curve): ALL sequences of that length"""
+    fams = []
     for tr in (False, True):
-        for tm in ic.sequences(full, 2):
-            yield tr, False, tm, "full=2"
-        for tm in ic.sequences(core, 4):
-            yield tr, False, tm, "core=4"
-        for tm in ic.sequences(core, 2):
-            yield tr, True, tm, "core=2(curves)"
+        fams += [("full=2", "full", 2, tr, False), ("core=4", "core", 4, tr, False), ("core=2(curves)", "core", 2, tr, True)]
     if ctx.thorough:
-        for tr in (False, True):
-            for tm in ic.sequences(core, 5):
-                yield tr, False, tm, "core=5"
-        for tm in ic.sequences(micro, 6):
-            yield True, False, tm, "micro=6"
-    n_rand = 5000 if ctx.thorough else 500
-    for j in range(n_rand):
-        tr = ctx.rng.random() < 0.5
-        curve = ctx.rng.random() < 0.3
-        tm = [t for t in ic.random_sequence(ctx.rng, 30, tr, curve) if t[0] in C13_CODES]
-        if tm:
-            yield tr, curve, tm, "random<=30"
+        fams += [("core=5", "core", 5, None, False), ("micro=6", "micro", 6, None, False)]   # tr alternates
+    return fams
+
+
+def decode_input(inp):
+    recs = inp.split(ic.RS)
+    hd = recs[0].split(ic.FS)
+    return hd[0] == "T", hd[1] == "T", [r.split(ic.FS) for r in recs[3:]]
+
+
+SAMPLE_EVERY = 251
+
+
+def run_one(tr, curve, ops, keep_text):
+    """-> (input, digest, full text or None, first violation or None, visited states)"""
+    first_bad = []
+    states = set()
+
+    def on_step(sim, o, r, snap):
+        states.add((tuple((i.original_mnemonic, i.mnemonic) for i in list.__iter__(sim.s)), tr))
+        if not first_bad:
+            bad = step_violations(sim, o, r, snap) + state_violations(sim.s)
+            if bad:
+                first_bad.append((bad[0][0], "after %s (transforms=%s, keys %s): %s"
+                                  % (o, tr, [i.mnemonic for i in list.__iter__(sim.s)], bad[0][1])))
+    inp, exp, sim = ic.run_sequence(tr, curve, ops, mode="i", on_step=on_step)
+    return inp, ic.digest(exp), (exp if keep_text else None), (first_bad[0] if first_bad else None), states
+
+
+def work_chunk(job):
+    """one family restricted to a first operation; runs in a worker process"""
+    fam, alpha_name, length, tr0, curve, first = job
+    alpha = ALPHABETS[alpha_name]()
+    import itertools
+    out = {"fam": fam, "cases": [], "texts": [], "viol": [], "n_clash": 0, "states": set()}
+    k = first
+    for rest in itertools.product(alpha, repeat=length - 1):
+        tm = [alpha[first]] + list(rest)
+        tr = tr0 if tr0 is not None else (k % 2 == 1)
+        k += 1
+        ops = ic.instantiate(tm, curve)
+        keep = (len(out["cases"]) % SAMPLE_EVERY == 0)
+        inp, dig, text, bad, states = run_one(tr, curve, ops, keep)
+        if keep:
+            out["texts"].append((len(out["cases"]), text))
+        out["cases"].append((inp, dig))
+        out["states"] |= states
+        if bad:
+            if ic.has_suffix_clash(ic.names_of_ops(ops)):
+                out["n_clash"] += 1
+                if out["n_clash"] > 2:
+                    continue
+            if len(out["viol"]) < 30:
+                out["viol"].append({"payload": seq_payload(tr, curve, ops, bad[0]), "what": "%s: %s" % (ops, bad[1])})
+    return out
 
 
 def seq_payload(tr, curve, ops, check):
@@ -258,37 +299,49 @@ def seq_payload(tr, curve, ops, check):
 
 
 def run(ctx):
+    import multiprocessing
     res = lib.Result()
-    cases, full_text, meta = [], [], []
+    cases, texts = [], {}
     hist = {}
     states = set()
     n_clash_viol = 0
-    clash_kept = 0
-    for tr, curve, tm, fam in gen_sequences(ctx):
+    jobs = []
+    for (fam, alpha_name, length, tr, curve) in families(ctx):
+        for first in range(len(ALPHABETS[alpha_name]())):
+            jobs.append((fam, alpha_name, length, tr, curve, first))
+    import lasio  # noqa: F401  (imported before forking)
+    with multiprocessing.get_context("fork").Pool(12) as pool:
+        for out in pool.imap(work_chunk, jobs, chunksize=1):
+            base = len(cases)
+            cases += out["cases"]
+            for (j, t) in out["texts"]:
+                texts[base + j] = t
+            hist[out["fam"]] = hist.get(out["fam"], 0) + len(out["cases"])
+            states |= out["states"]
+            n_clash_viol += out["n_clash"]
+            res.oracle_violations += out["viol"]
+    # random sequences (main process: one PRNG stream)
+    n_rand = 5000 if ctx.thorough else 500
+    for j in range(n_rand):
+        tr = ctx.rng.random() < 0.5
+        curve = ctx.rng.random() < 0.3
+        tm = [t for t in ic.random_sequence(ctx.rng, 30, tr, curve) if t[0] in C13_CODES]
+        if not tm:
+            continue
         ops = ic.instantiate(tm, curve)
-        first_bad = []
-
-        def on_step(sim, o, r, snap, first_bad=first_bad, tr=tr):
-            states.add((tuple((i.original_mnemonic, i.mnemonic) for i in list.__iter__(sim.s)), tr))
-            if not first_bad:
-                bad = step_violations(sim, o, r, snap) + state_violations(sim.s)
-                if bad:
-                    first_bad.append((bad[0][0], "after %s (transforms=%s, keys %s): %s"
-                                      % (o, tr, [i.mnemonic for i in list.__iter__(sim.s)], bad[0][1])))
-        inp, exp, sim = ic.run_sequence(tr, curve, ops, mode="i", on_step=on_step)
-        cases.append((inp, ic.digest(exp)))
-        full_text.append((inp, exp))
-        meta.append((tr, curve, ops))
-        hist[fam] = hist.get(fam, 0) + 1
-        if first_bad:
-            clash = ic.has_suffix_clash(ic.names_of_ops(ops))
-            if clash:
+        inp, dig, text, bad, st = run_one(tr, curve, ops, j % 10 == 0)
+        if text is not None:
+            texts[len(cases)] = text
+        cases.append((inp, dig))
+        hist["random<=30"] = hist.get("random<=30", 0) + 1
+        states |= st
+        if bad:
+            if ic.has_suffix_clash(ic.names_of_ops(ops)):
                 n_clash_viol += 1
-                if clash_kept >= 20:
+                if n_clash_viol > 40:
                     continue
-                clash_kept += 1
-            res.oracle_violations.append({"payload": seq_payload(tr, curve, ops, first_bad[0][0]),
-                                          "what": "%s: %s" % (ops, first_bad[0][1])})
+            res.oracle_violations.append({"payload": seq_payload(tr, curve, ops, bad[0]), "what": "%s: %s" % (ops, bad[1])})
+    n_seq = len(cases)
     # file level
     rng = ctx.rng
     n_files = 1500 if ctx.thorough else 150
@@ -315,19 +368,24 @@ def run(ctx):
                                           "what": "file P=%r mnemonic_case=%s then %s" % (pn, mc, text)})
     hist["files(read,write,re-read x3 cases + history)"] = n_file_cases
     res.oracle_violations.sort(key=lambda v: len(v["payload"].get("ops", [])) if v["payload"]["kind"] == "seq" else 99)
-    res.cases = len(cases) + n_file_cases
+    res.cases = n_seq + n_file_cases
     if ctx.build.model_ok:
-        mism, err = lib.run_coq_cases("c13", [], ic.RUN_DIGEST, cases, shard=2000)
+        mism, err = lib.run_coq_cases("c13", [], ic.RUN_DIGEST, cases, shard=2000, timeout=3000)
         res.corr_error = err
-        step = max(1, len(cases) // 300)
-        sample = sorted(set(list(range(0, len(cases), step)) + mism[:200]))
-        m2, err2 = lib.run_coq_cases("c13f", [], ic.RUN_CASE, [full_text[i] for i in sample], shard=100)
+        # full text on the sample and on every digest mismatch (re-run to get the text)
+        sample = sorted(texts)
+        full = [(cases[i][0], texts[i]) for i in sample]
+        for i in mism[:200]:
+            if i not in texts:
+                tr, curve, ops = decode_input(cases[i][0])
+                full.append((cases[i][0], run_one(tr, curve, ops, True)[2]))
+                sample.append(i)
+        m2, err2 = lib.run_coq_cases("c13f", [], ic.RUN_CASE, full, shard=100)
         res.corr_error = res.corr_error or err2
-        bad = sorted(set(mism) | {sample[i] for i in m2})
-        for i in bad:
-            tr, curve, ops = meta[i]
-            res.mismatches.append({"tr": tr, "curve": curve, "ops": ops, "impl": full_text[i][1][:1500]})
-        res.extra["full_text_cases"] = len(sample)
+        for i in sorted(set(mism) | {sample[i] for i in m2}):
+            tr, curve, ops = decode_input(cases[i][0])
+            res.mismatches.append({"tr": tr, "curve": curve, "ops": ops})
+        res.extra["full_text_cases"] = len(full)
     else:
         res.corr_error = "model not built"
     res.extra["sequences_in_suffix_clash_class_violating"] = n_clash_viol
@@ -340,8 +398,9 @@ def run(ctx):
                 "mnemonic_case preserve/upper/lower, written and re-read. distinct_nontrivial = distinct section states "
                 "(original/session name lists x flag) visited and checked by the direct oracle"
                 % (len(c13_alphabet(ic.full_alphabet())), len(ic.core_alphabet()),
-                   ", length 5 over core and length 6 over the micro alphabet (%d ops)" % len(ic.micro_alphabet()) if ctx.thorough else ""))
-    res.samples = [repr(meta[i][2]) for i in (0, len(meta) // 3, len(meta) // 2, len(meta) - 1)]
+                   ", ALL of length 5 over core and ALL of length 6 over the micro alphabet (%d ops; flag alternating)"
+                   % len(ic.micro_alphabet()) if ctx.thorough else ""))
+    res.samples = [repr(decode_input(cases[i][0])[2]) for i in (0, n_seq // 3, n_seq // 2, n_seq - 1)]
     res.histogram = hist
     return res
 
